@@ -62,9 +62,9 @@ func Deferred[V any](fn func() *Generator[V]) *Generator[V] {
 }
 
 type deferredGen[V any] struct {
-	once sync.Once
-	g    *Generator[V]
-	fn   func() *Generator[V]
+	mu sync.Mutex
+	g  *Generator[V]
+	fn func() *Generator[V]
 }
 
 func (g *deferredGen[V]) String() string {
@@ -73,10 +73,19 @@ func (g *deferredGen[V]) String() string {
 }
 
 func (g *deferredGen[V]) value(t *T) V {
-	g.once.Do(func() {
+	return g.target().value(t)
+}
+
+// target is not initialised under a sync.Once: a constructor function that panics
+// has to run (and panic the same way) again for the next test case.
+func (g *deferredGen[V]) target() *Generator[V] {
+	g.mu.Lock()
+	defer g.mu.Unlock()
+
+	if g.g == nil {
 		g.g = g.fn()
-	})
-	return g.g.value(t)
+	}
+	return g.g
 }
 
 func filter[V any](g *Generator[V], fn func(V) bool) *Generator[V] {
